@@ -323,7 +323,20 @@ def durable_execution(
             contextlib.closing(execution_state) as execution_state,
         ):
             # Thread 1: Run background checkpoint processing
-            executor.submit(execution_state.checkpoint_batches_forever)
+            checkpoint_future = executor.submit(
+                execution_state.checkpoint_batches_forever
+            )
+
+            def raise_if_checkpointing_failed() -> None:
+                """Never report SUCCEEDED / PENDING after a checkpoint failure.
+
+                A failed call wakes the callers that wait on it. A call that carried only
+                fire-and-forget updates has no such caller, so the handler can finish or suspend
+                normally: let the background thread send what it already collected, then ask.
+                """
+                execution_state.stop_checkpointing()
+                checkpoint_future.result()
+                execution_state.raise_if_checkpointing_failed()
 
             # Thread 2: Execute user function
             logger.debug(
@@ -374,6 +387,7 @@ def durable_execution(
                         result=""
                     ).to_dict()
 
+                raise_if_checkpointing_failed()
                 return DurableExecutionInvocationOutput.create_succeeded(
                     result=serialized_result
                 ).to_dict()
@@ -396,6 +410,15 @@ def durable_execution(
             except SuspendExecution:
                 # User code suspended - stop background checkpointing thread
                 logger.debug("Suspending execution...")
+                try:
+                    raise_if_checkpointing_failed()
+                except BackgroundThreadError as bg_error:
+                    logger.exception("Checkpoint processing failed")
+                    if isinstance(bg_error.source_exception, CheckpointError):
+                        return handle_checkpoint_error(
+                            bg_error.source_exception
+                        ).to_dict()
+                    raise bg_error.source_exception from bg_error
                 return DurableExecutionInvocationOutput(
                     status=InvocationStatus.PENDING
                 ).to_dict()
